@@ -30,6 +30,10 @@ func boundsFork(idx symv, n int) {
 	if w == 8 && n >= 256 {
 		return
 	}
+	// cheap structural range analysis first: (x >> 4), (x & 15), zero-extended bytes ... need no query
+	if ub, ok := termUpperBound(idx.t); ok && ub < uint64(n) && (w == 64 && ub < 1<<62 || w < 64 && ub < 1<<uint(w-1) || !kindSigned(idx.k)) {
+		return
+	}
 	if !X.decide(inb) {
 		panic("runtime error: index out of range (symbolic index)")
 	}
@@ -101,4 +105,70 @@ func (p *symptr) store(v value) {
 		c := Eq(p.idx.t, BVConst(uint64(i), w))
 		p.elems[i] = mkScalar(Ite(c, termOf(v), termOf(p.elems[i])), k)
 	}
+}
+
+// termUpperBound returns an upper bound of t read as an unsigned number, from its structure alone.
+func termUpperBound(t *Term) (uint64, bool) {
+	if t.Sort.Kind != 'V' {
+		return 0, false
+	}
+	switch t.Op {
+	case "const":
+		return t.Val, true
+	case "bvand":
+		a, oka := termUpperBound(t.Args[0])
+		b, okb := termUpperBound(t.Args[1])
+		switch {
+		case oka && okb:
+			if a < b {
+				return a, true
+			}
+			return b, true
+		case oka:
+			return a, true
+		case okb:
+			return b, true
+		}
+	case "bvlshr":
+		if t.Args[1].Op == "const" {
+			a, ok := termUpperBound(t.Args[0])
+			if !ok {
+				a = mask(t.Sort.Width)
+			}
+			if t.Args[1].Val >= 64 {
+				return 0, true
+			}
+			return a >> t.Args[1].Val, true
+		}
+	case "zero_extend":
+		if a, ok := termUpperBound(t.Args[0]); ok {
+			return a, true
+		}
+		return mask(t.Args[0].Sort.Width), true
+	case "ite":
+		a, oka := termUpperBound(t.Args[1])
+		b, okb := termUpperBound(t.Args[2])
+		if oka && okb {
+			if a > b {
+				return a, true
+			}
+			return b, true
+		}
+	case "tbl":
+		var m uint64
+		for _, v := range t.Table {
+			if v > m {
+				m = v
+			}
+		}
+		return m, true
+	case "var":
+		if t.Sort.Width < 64 {
+			return mask(t.Sort.Width), true
+		}
+	}
+	if t.Sort.Width < 64 {
+		return mask(t.Sort.Width), true
+	}
+	return 0, false
 }
